@@ -345,6 +345,15 @@ class Terms(object):
                 return (base[0],) + tuple(base[1:][slice(lo[1], hi[1], st[1])])
             if base[0] == "c" and isinstance(base[1], (bytes, str, tuple, list)):
                 return ("c", base[1][slice(lo[1], hi[1], st[1])])
+            if base[0] == "call" and base[1] == "struct.unpack" and len(base[2]) == 2 and base[2][0][0] == "c" and isinstance(base[2][0][1], (bytes, str)):
+                # the number of fields of a literal format is known: the slice is those fields
+                import struct as _struct
+                try:
+                    nf = len(_struct.unpack(base[2][0][1], bytes(_struct.calcsize(base[2][0][1]))))
+                except Exception:   # noqa
+                    nf = None
+                if nf is not None:
+                    return ("tuple",) + tuple(("proj", base, i) for i in range(nf)[slice(lo[1], hi[1], st[1])])
         if (base[0] == "slice" and base[3] == none and base[4] == none and st == none and lo == none
                 and base[2][0] == "c" and isinstance(base[2][1], int) and base[2][1] >= 0
                 and (hi == none or (hi[0] == "c" and isinstance(hi[1], int) and not isinstance(hi[1], bool) and hi[1] < 0))):
